@@ -13,6 +13,9 @@ from hist_common import FAULT_EXC, FMTS, HistEngine
 from sim import cref, gen_beh, gen_call, il
 from sim.core import Chooser, EventLog, Violation, stable_hash
 
+# a statement with eight hybrids; compiled through transform_insn with a cached tree it costs milliseconds, so a
+# "long-lived instance" (temporary counter in the hundreds or thousands) is cheap to simulate
+WARMUP_BIG = "{ int32_t wq = RsV; RdV = wq++ + wq++ + wq++ + wq++ + wq++ + wq++ + wq++ + wq++; }"
 WARMUP = [
     "{ int32_t wq = 0; wq++; }",                          # +1 temporary
     "{ int32_t wq = RsV; RdV = wq++ + wq++; }",           # +2
@@ -48,6 +51,10 @@ class EngineC08(HistEngine):
     tiers = {"quick": dict(budget_s=55, max_runs=10**9, workers=16),
              "thorough": dict(budget_s=1500, max_runs=10**9, workers=16)}
     nstates = {"quick": 24, "thorough": 48}
+
+    def _load(self):
+        super()._load()
+        self.extra_texts = sorted(set(self.extra_texts) | {WARMUP_BIG})
 
     # ------------------------------------------------------------------ workload
     def generate(self, ch: Chooser, index):
@@ -89,6 +96,11 @@ class EngineC08(HistEngine):
         early = [f for f in early if funcs.index(f) < first_late]
         late = [f for f in funcs if f not in early]
         reg_ops(early)
+        if ch.chance(1, 4, "long-lived"):
+            # heavy tail: the instance has already numbered hundreds of temporaries
+            winst = ch.draw(len(insts), "biginst")
+            for _ in range(ch.randint(10, 400, "bigwarm")):
+                ops.append({"op": "insn", "inst": winst, "name": "warm", "parts": [WARMUP_BIG], "via": "transform_insn"})
         for _ in range(ch.randint(0, 8, "warmup")):
             ops.append({"op": "stmt", "inst": ch.draw(len(insts), "winst"), "code": ch.choice(WARMUP, "warm")})
         reg_ops(late)
@@ -214,6 +226,13 @@ class EngineC08(HistEngine):
                 closure.add(n)
                 if n in defs:
                     todo += re.findall(r"\bhex_(\w+)\(", defs[n].split("{", 1)[1])
+            undefined = sorted(n for n in closure if n not in defs)
+            if undefined:
+                # the emitted text calls hex_<n>(...) but no registered routine is defined under that symbol
+                V.append(Violation("C08", "registration", "call-to-undefined-symbol", cfg,
+                                   {"caller": c["text"], "symbols": ["hex_" + n for n in undefined][:4],
+                                    "registered": sorted(defs)[:20]}, step))
+                continue
             if any(n not in subs for n in closure):
                 out.count("caller_skipped_unparsed_def")
                 continue
